@@ -260,6 +260,74 @@ func execC18Mesh(b []byte) vx.Verdict {
 				open[key] = &c18Open{closeFn: func() { _ = li.Close() }, connType: netceptor.ConnTypeStream, tags: tags}
 			}
 			labels = append(labels, "open")
+		case "reopen":
+			// close an advertised datagram listener and open the same service again at the same moment; whether the open
+			// wins or is refused ("already listening") is read from its result, the final listing must agree with it
+			var keys []string
+			for k, o := range open {
+				if o.connType == netceptor.ConnTypeDatagram {
+					keys = append(keys, k)
+				}
+			}
+			if len(keys) == 0 {
+				continue
+			}
+			sort.Strings(keys)
+			k := keys[(ev.Node+ev.Svc)%len(keys)]
+			o := open[k]
+			var node, svc string
+			fmt.Sscanf(replaceSlash(k), "%s %s", &node, &svc)
+			n := m.Node(node).N
+			tags := c18Tags[ev.Tags%len(c18Tags)]
+			rounds := 40 + (ev.Kind*70+ev.Tags*30)%280
+			cur := o
+			for round := 0; round < rounds && cur != nil; round++ {
+				start := make(chan struct{})
+				done := make(chan struct{}, 2)
+				var npc netceptor.PacketConner
+				var nerr error
+				closing := cur
+				go func() { <-start; closing.closeFn(); done <- struct{}{} }()
+				go func() {
+					<-start
+					// like a supervisor that re-creates the service as soon as the name is free (bounded: 200 ms)
+					limit := time.Now().Add(200 * time.Millisecond)
+					for {
+						npc, nerr = n.ListenPacketAndAdvertise(svc, tags)
+						if nerr == nil || time.Now().After(limit) || (ev.Kind+round)%5 == 0 {
+							break
+						}
+					}
+					done <- struct{}{}
+				}()
+				close(start)
+				for i := 0; i < 2; i++ {
+					select {
+					case <-done:
+					case <-time.After(20 * time.Second):
+						return vx.Violation("converge", "C18/close-or-open-blocked", "closing and re-opening %s at the same time did not return within 20 s", k)
+					}
+				}
+				closes++
+				if nerr == nil {
+					pc := npc
+					cur = &c18Open{closeFn: func() { _ = pc.Close() }, connType: netceptor.ConnTypeDatagram, tags: tags}
+					labels = append(labels, "reopen-during-close:won")
+				} else {
+					cur = nil
+					labels = append(labels, "reopen-during-close:refused")
+					if round+1 < rounds {
+						// open it again in the ordinary way and keep racing
+						if pc, err := n.ListenPacketAndAdvertise(svc, tags); err == nil {
+							cur = &c18Open{closeFn: func() { _ = pc.Close() }, connType: netceptor.ConnTypeDatagram, tags: tags}
+						}
+					}
+				}
+			}
+			delete(open, k)
+			if cur != nil {
+				open[k] = cur
+			}
 		case "close":
 			var keys []string
 			for k := range open {
